@@ -138,6 +138,7 @@ inductive Tok where
   | si | bel | ff             -- 0x0f 0x07 0x0c
   | linuxCur (n : Nat)        -- CSI ? n c
   | decsca                    -- CSI " q
+  | print (b : Nat)           -- one printable ASCII byte
 deriving DecidableEq, Repr
 
 def Tok.bytes : Tok → Bytes
@@ -157,6 +158,7 @@ def Tok.bytes : Tok → Bytes
   | .si => [15] | .bel => [7] | .ff => [12]
   | .linuxCur n => csiSeq (0x3f :: dec n) 0x63
   | .decsca => [27, 91, 34, 113]
+  | .print b => [b]
 
 def numByte (b : Nat) : Bool := (decide (48 ≤ b) && decide (b ≤ 57)) || b == 0x3b || b == 0x3a
 
@@ -164,6 +166,7 @@ def Tok.wf : Tok → Bool
   | .scusr n => decide (n < 7)
   | .csi body final => body.all numByte && (parseParams body).isSome && decide (0x40 ≤ final) && decide (final ≤ 0x7e) &&
       decide (final ≠ 0x74)
+  | .print b => decide (0x20 ≤ b) && decide (b < 0x7f)
   | _ => true
 
 def decEff (n : Nat) (on : Bool) : Eff :=
@@ -424,6 +427,15 @@ theorem sim_linuxCur (n : Nat) : Sim (csiSeq (0x3f :: dec n) 0x63) id := by
     simp [dispatchCsi, parseCsiBody_private _ (numeric_dec n), hps, flat]
   rw [e]; exact ⟨hst, rfl⟩
 
+theorem sim_print (b : Nat) (h : (Tok.print b).wf = true) : Sim [b] id := by
+  simp only [Tok.wf, Bool.and_eq_true, decide_eq_true_eq] at h
+  refine Sim.of_keep fun t hst => ?_
+  have h1 : ¬ b < 0x20 := by omega
+  have h2 : b ≠ 0x7f := by omega
+  have h3 : b < 0x80 := by omega
+  have e : t.feed [b] = t.printByte b := by simp [feedByte, hst, feedGround, h1, h2, h3]
+  rw [e]; exact keep_printByte t b
+
 /-- **every well-formed token does to the emulator's mode registers what its `Eff` says, from any ground state** -/
 theorem Tok.sim (k : Tok) (h : k.wf = true) : Sim k.bytes k.eff.apply := by
   cases k with
@@ -449,6 +461,7 @@ theorem Tok.sim (k : Tok) (h : k.wf = true) : Sim k.bytes k.eff.apply := by
   | ff => exact sim_ff
   | linuxCur n => exact sim_linuxCur n
   | decsca => exact sim_decsca
+  | print b => exact sim_print b h
 
 def toks (l : List Tok) : Bytes := l.flatMap Tok.bytes
 def effOf (l : List Tok) : Eff := l.foldl (fun (e : Eff) (k : Tok) => e.seq k.eff) {}
@@ -523,6 +536,7 @@ def tokenizeAux : Nat → Bytes → Option (List Tok)
     else if b = 15 then (tokenizeAux f rest).map (Tok.si :: ·)
     else if b = 7 then (tokenizeAux f rest).map (Tok.bel :: ·)
     else if b = 12 then (tokenizeAux f rest).map (Tok.ff :: ·)
+    else if 0x20 ≤ b ∧ b < 0x7f then (tokenizeAux f rest).map (Tok.print b :: ·)
     else none
 
 def tokenize (s : Bytes) : Option (List Tok) := tokenizeAux (s.length + 1) s
